@@ -36,6 +36,45 @@ Proof. reflexivity. Qed.
 Lemma pose_read_tie : Gen_C18.pose_read = ["load end_offset"].
 Proof. reflexivity. Qed.
 
+(* second tie: the inventory of module/class-level state of the files a read executes, and every access to such
+   state (all writes anywhere; reads in the functions a read runs).  Besides PoseHeaderCache the only state written
+   at run time is the per-format attribute memo of BufferReader.unpack_f (hasattr / setattr / getattr on
+   ConstStructs), modelled in model/C18_StructMemo.v; everything else is loaded only. *)
+Lemma state_inventory_tie : Gen_C18.state_inventory =
+  [ "utils/reader.py:ConstStructs.float";
+    "utils/reader.py:ConstStructs.short";
+    "utils/reader.py:ConstStructs.ushort";
+    "utils/reader.py:ConstStructs.double_ushort";
+    "utils/reader.py:ConstStructs.triple_ushort";
+    "utils/reader.py:ConstStructs.uint";
+    "pose_header.py:VERSION";
+    "pose_header.py:PoseHeaderCache.start_offset";
+    "pose_header.py:PoseHeaderCache.end_offset";
+    "pose_header.py:PoseHeaderCache.hash";
+    "pose_header.py:PoseHeaderCache.header";
+    "pose_header.py:PoseHeaderCache.lock";
+    "pose.py:Pose.pass_through_methods";
+    "pose_body.py:POINTS_DIMS";
+    "pose_body.py:PoseBody.tensor_reader";
+    "numpy/pose_body.py:NumPyPoseBody.tensor_reader" ].
+Proof. reflexivity. Qed.
+Lemma shared_state_accesses_tie : Gen_C18.shared_state_accesses =
+  [ "utils/reader.py:BufferReader.unpack_f: hasattr ConstStructs; setattr ConstStructs; getattr ConstStructs";
+    "utils/reader.py:BufferReader.unpack_str: load ConstStructs.ushort";
+    "pose_header.py:PoseHeaderComponent.read: load ConstStructs.triple_ushort; load ConstStructs.double_ushort; load ConstStructs.ushort";
+    "pose_header.py:PoseHeaderDimensions.read: load ConstStructs.triple_ushort";
+    "pose_header.py:PoseHeaderCache.calc_hash: load PoseHeaderCache.start_offset; load PoseHeaderCache.end_offset";
+    "pose_header.py:PoseHeaderCache.check_cache: load PoseHeaderCache.hash; load PoseHeaderCache.hash; load PoseHeaderCache.calc_hash; load PoseHeaderCache.header";
+    "pose_header.py:PoseHeaderCache.clear_cache: load PoseHeaderCache.lock; store PoseHeaderCache.start_offset; store PoseHeaderCache.end_offset; store PoseHeaderCache.hash; store PoseHeaderCache.header";
+    "pose_header.py:PoseHeaderCache.set_cache: load PoseHeaderCache.lock; store PoseHeaderCache.start_offset; store PoseHeaderCache.end_offset; store PoseHeaderCache.header; store PoseHeaderCache.hash; load PoseHeaderCache.calc_hash";
+    "pose_header.py:PoseHeader.read: load PoseHeaderCache.lock; load PoseHeaderCache.check_cache; load PoseHeaderCache.end_offset; load ConstStructs.float; load PoseHeaderDimensions.read; load ConstStructs.ushort; load PoseHeaderComponent.read; load PoseHeaderCache.set_cache";
+    "pose.py:Pose.read: load PoseHeaderCache.end_offset; load PoseHeader.read";
+    "pose_body.py:PoseBody.read_v0_1_frames: load ConstStructs.float; load ConstStructs.float";
+    "pose_body.py:PoseBody.read_v0_1: load ConstStructs.double_ushort; load ConstStructs.ushort";
+    "pose_body.py:PoseBody.read_v0_2: load ConstStructs.float; load ConstStructs.uint; load ConstStructs.ushort";
+    "numpy/pose_body.py:NumPyPoseBody.read_v0_0: load ConstStructs.double_ushort; load ConstStructs.ushort; load ConstStructs.short; load ConstStructs.float" ].
+Proof. reflexivity. Qed.
+
 Definition modelled_programme : Prop :=
   Gen_C18.memo_fields = ["start_offset"; "end_offset"; "hash"; "header"] /\
   Gen_C18.lock_attribute = ["lock"] /\
@@ -44,6 +83,39 @@ Definition modelled_programme : Prop :=
   Gen_C18.set_cache = ["with[load lock]{"; "store start_offset"; "store end_offset"; "store header"; "call calc_hash; store hash"; "}"] /\
   Gen_C18.header_read = ["with[load lock]{"; "call check_cache"; "if[]{"; "load end_offset"; "return"; "}"; "}"; "call set_cache"] /\
   Gen_C18.pose_read = ["load end_offset"].
+Definition modelled_state : Prop :=
+  Gen_C18.state_inventory = [ "utils/reader.py:ConstStructs.float";
+    "utils/reader.py:ConstStructs.short";
+    "utils/reader.py:ConstStructs.ushort";
+    "utils/reader.py:ConstStructs.double_ushort";
+    "utils/reader.py:ConstStructs.triple_ushort";
+    "utils/reader.py:ConstStructs.uint";
+    "pose_header.py:VERSION";
+    "pose_header.py:PoseHeaderCache.start_offset";
+    "pose_header.py:PoseHeaderCache.end_offset";
+    "pose_header.py:PoseHeaderCache.hash";
+    "pose_header.py:PoseHeaderCache.header";
+    "pose_header.py:PoseHeaderCache.lock";
+    "pose.py:Pose.pass_through_methods";
+    "pose_body.py:POINTS_DIMS";
+    "pose_body.py:PoseBody.tensor_reader";
+    "numpy/pose_body.py:NumPyPoseBody.tensor_reader" ] /\
+  Gen_C18.shared_state_accesses = [ "utils/reader.py:BufferReader.unpack_f: hasattr ConstStructs; setattr ConstStructs; getattr ConstStructs";
+    "utils/reader.py:BufferReader.unpack_str: load ConstStructs.ushort";
+    "pose_header.py:PoseHeaderComponent.read: load ConstStructs.triple_ushort; load ConstStructs.double_ushort; load ConstStructs.ushort";
+    "pose_header.py:PoseHeaderDimensions.read: load ConstStructs.triple_ushort";
+    "pose_header.py:PoseHeaderCache.calc_hash: load PoseHeaderCache.start_offset; load PoseHeaderCache.end_offset";
+    "pose_header.py:PoseHeaderCache.check_cache: load PoseHeaderCache.hash; load PoseHeaderCache.hash; load PoseHeaderCache.calc_hash; load PoseHeaderCache.header";
+    "pose_header.py:PoseHeaderCache.clear_cache: load PoseHeaderCache.lock; store PoseHeaderCache.start_offset; store PoseHeaderCache.end_offset; store PoseHeaderCache.hash; store PoseHeaderCache.header";
+    "pose_header.py:PoseHeaderCache.set_cache: load PoseHeaderCache.lock; store PoseHeaderCache.start_offset; store PoseHeaderCache.end_offset; store PoseHeaderCache.header; store PoseHeaderCache.hash; load PoseHeaderCache.calc_hash";
+    "pose_header.py:PoseHeader.read: load PoseHeaderCache.lock; load PoseHeaderCache.check_cache; load PoseHeaderCache.end_offset; load ConstStructs.float; load PoseHeaderDimensions.read; load ConstStructs.ushort; load PoseHeaderComponent.read; load PoseHeaderCache.set_cache";
+    "pose.py:Pose.read: load PoseHeaderCache.end_offset; load PoseHeader.read";
+    "pose_body.py:PoseBody.read_v0_1_frames: load ConstStructs.float; load ConstStructs.float";
+    "pose_body.py:PoseBody.read_v0_1: load ConstStructs.double_ushort; load ConstStructs.ushort";
+    "pose_body.py:PoseBody.read_v0_2: load ConstStructs.float; load ConstStructs.uint; load ConstStructs.ushort";
+    "numpy/pose_body.py:NumPyPoseBody.read_v0_0: load ConstStructs.double_ushort; load ConstStructs.ushort; load ConstStructs.short; load ConstStructs.float" ].
+Lemma shared_state_tie : modelled_state.
+Proof. exact (conj state_inventory_tie shared_state_accesses_tie). Qed.
 Lemma access_programme_tie : modelled_programme.
 Proof.
   exact (conj memo_fields_tie (conj lock_attribute_tie (conj calc_hash_tie (conj check_cache_tie
